@@ -555,7 +555,7 @@ def cases():
     # 71: a sub-directory document that consists of `apps:` alone (the directory-named app) under app defaults that
     #     come down through subdirs:, next to one with an empty list
     f = base([{"name": "basemod", "sources": ["basemod.c"], "env": {"export": {"CFLAGS": ["-DBASE"]}}}], [])
-    f["laze-project.yml"][0]["defaults"] = {"app": {"sources": ["common_main.c"], "depends": ["basemod"], "env": {"global": {"CFLAGS": ["-DFROM_DEFAULTS"]}}}}
+    f["laze-project.yml"][0]["defaults"] = {"app": {"sources": ["common_main.c"], "selects": ["basemod"], "uses": ["basemod"], "env": {"global": {"CFLAGS": ["-DFROM_DEFAULTS"]}}}}
     f["laze-project.yml"][0]["subdirs"] = ["hello", "quiet"]
     f["hello/laze.yml"] = [{"apps": None}]
     f["quiet/laze.yml"] = [{"apps": []}, {"apps": None}]
@@ -569,4 +569,11 @@ def cases():
             {"name": "sim2", "parent": "sim", "tasks": {"term": {"cmd": ["term-sim2"], "required_modules": ["console"]}}}]
     mods = [{"name": "console", "sources": ["console.c"], "tasks": {"term": {"cmd": ["term-from-module"]}}}]
     out.append((base(mods, [{"name": "app", "sources": ["main.c"]}, {"name": "capp", "sources": ["c.c"], "selects": ["console"]}], contexts=ctxs, builders=blds), {}))
+    # 73: a source listed twice (by the module itself, and by defaults plus the module): the list keeps its order and
+    #     both entries (one compile statement, the object twice on the link line)
+    mods = [{"name": "uart", "sources": ["uart.c", "log.c", "ring.c", "fifo.c", "log.c", "zz.c"]},
+            {"name": "spi", "sources": ["spi.c", "log.c"]}]
+    f = base(mods, [{"name": "app", "sources": ["main.c"], "depends": ["uart", "spi"]}])
+    f["laze-project.yml"][0]["defaults"] = {"module": {"sources": ["log.c"]}}
+    out.append((f, {}))
     return out
